@@ -3,6 +3,7 @@
    executable property predicates of Spec.v to an observation made on the IMPLEMENTATION. *)
 From Coq Require Import List Ascii String ZArith Bool.
 From Model Require Import Bytes Wire Glob StaticRoute RoundRobin Pins Resolver SendFault Codec Message Spec SpecC14 SpecC16 SpecC15 SpecC19 SpecC05 SpecC20 RunProxy RunBufio SpecProxy SpecProxy2.
+From Model Require RunProxyTB.
 Import ListNotations.
 
 Definition decode_error : list bytes := [s2b "decode-error"].
@@ -196,6 +197,7 @@ Definition run (comp : bytes) (args : list bytes) : list bytes :=
   else if beq comp (s2b "codecgen") then run_codecgen args
   else if beq comp (s2b "dialog") then run_dialog args
   else if beq comp (s2b "proxy") then run_proxy args
+  else if beq comp (s2b "proxytb") then RunProxyTB.run_proxytb args
   else match run_bufio comp args with Some r => r | None => [s2b "unknown-component"] end.
 
 (* codec: kind text nexpected expected.. then the observation *)
@@ -315,4 +317,8 @@ Definition judge (comp : bytes) (args : list bytes) : list bytes :=
   else if beq comp (s2b "proxy-C04") then judge_proxy_hist 0 args
   else if beq comp (s2b "proxy-C12") then judge_proxy_hist 1 args
   else if beq comp (s2b "proxy-C17") then judge_proxy_twin args
+  else if beq comp (s2b "proxytb-C01") then RunProxyTB.judge_tb_with false judge_C01_event args
+  else if beq comp (s2b "proxytb-C06") then RunProxyTB.judge_tb_with false judge_C06_event args
+  else if beq comp (s2b "proxytb-C03") then RunProxyTB.judge_tb_with true judge_C03_event args
+  else if beq comp (s2b "proxytb-C04") then RunProxyTB.judge_tb_hist args
   else match judge_bufio comp args with Some r => r | None => [s2b "unknown-component"] end.
